@@ -139,7 +139,8 @@ def patient_body():
         add_both(a, b, TrialState.COMPLETE, iv, value=0.0)
     steps = [0, 1, 2, 3]
     mask = sx.choose(list(range(1, 1 << len(steps))), "cur.steps")
-    civ = {s: sx.sym_real(f"cur_s{s}") for k, s in enumerate(steps) if mask >> k & 1}
+    # the current trial's reports may diverge: +-inf at any step (pairwise distinct, so at most one of each)
+    civ = {s: sx.sym_float(f"cur_s{s}", ("finite", "inf", "-inf")) for k, s in enumerate(steps) if mask >> k & 1}
     allv += list(civ.values())
     distinct(allv)
     ca = create_trial(state=TrialState.RUNNING, intermediate_values=civ)
